@@ -57,6 +57,12 @@ ROWS = [
     ("C17", "fixed", "fix: dictionary/JSON and npz forms keep", "F9",
      "R1-orientation-differs/dict-json-npz/*",
      "to_dict/JSON/save_npz stored oriented boundaries as plain index lists: orientation flags lost"),
+    ("C18", "fixed", "fix: MeshQuad1.to_meshtri(style='x') numbers", "F16",
+     "nested-child-in-no-old-cell/split/MeshQuad1",
+     "to_meshtri(style='x') numbered the new midpoints max(t)+1.. although they are appended at p.shape[1]..: wrong on a mesh whose point array ends with unused vertices (a part returned by `@`)"),
+    ("C18", "fixed", "fix: MeshTri1 * MeshLine1 offsets", "F17",
+     "valid-degenerate-cell/extrude/MeshTri1",
+     "MeshTri1 * MeshLine1 offset the layers by nvertices = max(t)+1 although every layer appends p.shape[1] points: degenerate/inverted prisms on a mesh with trailing unused vertices"),
     ("C18", "known", None, "K1",
      "conforming-hanging-node-or-hole/split/MeshHex1",
      "MeshHex1.to_meshtet on a mesh whose hexahedra do not all use the same local orientation (e.g. a file mesh; any of the 24 rotations of the reference numbering is admissible): the fixed 6-tetrahedra template cuts a shared quadrilateral face along different diagonals from its two sides, the tetrahedral mesh is not conforming"),
